@@ -245,8 +245,12 @@ def run(ctx):
     res = ctx.tlc("MC_Schema", "run.cfg", workers=1, simulate=f"num={ctx.pick(260, 6000)}", depth=13,
                   extra_files={"run.cfg": cfg(types, ctx.pick("OccsSmall", "OccsAll"), 6, emit=True)}, label="Gen_Schema schemas and documents",
                   tags=("XSD",), timeout=3000)
+    # the fixed corpus (reproducers and rarely drawn shapes): replayed in every run
+    corpus = ctx.tlc("MC_Schema", "run.cfg", workers=1,
+                     extra_files={"run.cfg": f"INIT InitCorpus\nNEXT Next\nCONSTANTS\n  MaxDocIdx = 6\n  Types = {types}\n  Occs <- OccsAll\nCONSTRAINT Emit\nCHECK_DEADLOCK FALSE\n"},
+                     label="Gen_Schema fixed corpus", tags=("XSD",), timeout=1500)
     by_schema = {}
-    for _t, c in res.printed:
+    for _t, c in list(corpus.printed) + list(res.printed):
         k = json.dumps(c["schema"], sort_keys=True)
         by_schema.setdefault(k, {"schema": c["schema"], "docs": {}})
         by_schema[k]["docs"][json.dumps(c["doc"], sort_keys=True)] = (c["doc"], {"op": c["op"], "opNoCompound": c["opNoCompound"]})
